@@ -542,7 +542,7 @@ func runEdit(c *Ctx, cas c07edit) (key string, ok bool) {
 }
 
 func c07(c *Ctx) {
-	c.Rule = "round trip: each header section enumerated as a full product with the other sections at two contexts (empty, populated): @HD version {'' , 1.6} x SO (4) x GO (4) x 0-2 extra tags; every list of 0-3 references over 6 variants (bare, M5, AS+SP, UR file, UR http, custom tag); every list of 0-2 read groups over 8 variants (bare, all optional fields, dates in UTC/+0930/-0700/date-only, negative PI, FO/KS '*'); lists of 0-2 programs over 2 variants; comments {none, x, 'a b', two}; under time.Local = UTC and +09:30; text and binary: parse(serialise(h)) serialises identically and exposes equal values. edit histories: BFS with de-duplication (key = text + private identity tables) to depth 4 (thorough 5) over {AddReference of 4 prepared references (two share a name with different tags, one equals an existing one), RemoveReference(i), SetName, Add/Remove read group and program, SetName/SetUID, Clone (continue on the clone, original must stay intact), MergeHeaders with each of 3 partner headers and with 5 ordered pairs of them (three sources), UnmarshalText of 7 extra lines incl. duplicate names}; in every state: ids equal indexes, names unique, items owned, originals untouched, merge links correct, serialisation round trip. Non-trivial: states with at least two items."
+	c.Rule = "round trip: each header section enumerated as a full product with the other sections at two contexts (empty, populated): @HD version {'' , 1.6} x SO (4) x GO (4) x 0-2 extra tags; every list of 0-3 references over 6 variants (bare, M5, AS+SP, UR file, UR http, custom tag); every list of 0-2 read groups over 8 variants (bare, all optional fields, dates in UTC/+0930/-0700/date-only, negative PI, FO/KS '*'); lists of 0-2 programs over 2 variants; comments {none, x, 'a b', two}; under time.Local = UTC and +09:30; text and binary: parse(serialise(h)) serialises identically and exposes equal values. edit histories: BFS with de-duplication (key = text + private identity tables) to depth 4 (thorough 7) over {AddReference of 4 prepared references (two share a name with different tags, one equals an existing one), RemoveReference(i), SetName, Add/Remove read group and program, SetName/SetUID, Clone (continue on the clone, original must stay intact), MergeHeaders with each of 3 partner headers and with 5 ordered pairs of them (three sources), UnmarshalText of 7 extra lines incl. duplicate names}; in every state: ids equal indexes, names unique, items owned, originals untouched, merge links correct, serialisation round trip. Non-trivial: states with at least two items."
 	if c.Replay != nil {
 		var probe struct {
 			Ops []hop `json:"ops"`
@@ -633,7 +633,7 @@ func c07(c *Ctx) {
 	menu := editMenu()
 	maxDepth := 4
 	if c.Thorough {
-		maxDepth = 5
+		maxDepth = 7
 	}
 	seen := map[string]bool{}
 	frontier := [][]hop{nil}
